@@ -824,3 +824,413 @@ def replay_known(finding):
         except Exception as ex:
             return 'format_error of the error raised by %r raises %s' % (finding['bst'], type(ex).__name__)
     return None
+
+# ------------------------------------------------------------------------------------------
+# extra checks: line-break class sweep, AST scans, every error class, real inputs in three modes
+MODEL_LB = {10, 11, 12, 13, 28, 29, 30, 133, 8232, 8233}
+PKG = os.path.join(REPO, 'pybtex')
+
+def _py_files():
+    for root, dirs, files in os.walk(PKG):
+        dirs[:] = [d for d in dirs if d != 'tests' and d != '__pycache__']
+        for f in sorted(files):
+            if f.endswith('.py'):
+                yield os.path.join(root, f)
+
+MODE_CELLS = ('strict', 'error_code', 'captured_errors')
+
+def ast_scan():
+    """(a) who touches the mode cells; (b) PybtexError subclasses; (c) report / raise sites"""
+    touches, classes, sites = [], {}, []
+    trees = {}
+    for path in _py_files():
+        rel = os.path.relpath(path, REPO)
+        tree = ast.parse(open(path, encoding='utf-8').read(), path)
+        trees[rel] = tree
+        for node in ast.walk(tree):
+            if isinstance(node, ast.ClassDef):
+                bases = [b.id if isinstance(b, ast.Name) else b.attr if isinstance(b, ast.Attribute) else '?' for b in node.bases]
+                classes[node.name] = (rel, node.lineno, bases)
+    err_classes = {'PybtexError'}
+    changed = True
+    while changed:
+        changed = False
+        for name, (rel, ln, bases) in classes.items():
+            if name not in err_classes and any(b in err_classes for b in bases):
+                err_classes.add(name); changed = True
+    for rel, tree in trees.items():
+        # names under which pybtex.errors is visible in this module
+        mod_names, cell_names = set(), set()
+        for node in ast.walk(tree):
+            if isinstance(node, ast.Import):
+                for a in node.names:
+                    if a.name == 'pybtex.errors':
+                        mod_names.add(a.asname or 'pybtex')
+            elif isinstance(node, ast.ImportFrom):
+                if node.module == 'pybtex' or (node.module is None and node.level):
+                    for a in node.names:
+                        if a.name == 'errors':
+                            mod_names.add(a.asname or 'errors')
+                if node.module in ('pybtex.errors', 'errors'):
+                    for a in node.names:
+                        if a.name in MODE_CELLS or a.name == '*':
+                            cell_names.add(a.asname or a.name)
+                        if a.name in ('capture', 'set_strict_mode') and rel != 'pybtex/errors.py':
+                            touches.append((rel, node.lineno, 'imports ' + a.name))
+        for node in ast.walk(tree):
+            if isinstance(node, ast.Attribute) and node.attr in MODE_CELLS + ('capture', 'set_strict_mode'):
+                v = node.value
+                base = v.id if isinstance(v, ast.Name) else (v.attr if isinstance(v, ast.Attribute) else None)
+                if base in mod_names or base == 'errors':
+                    touches.append((rel, node.lineno, 'errors.' + node.attr))
+            elif isinstance(node, ast.Name) and node.id in cell_names:
+                touches.append((rel, node.lineno, node.id))
+            if isinstance(node, ast.Call):
+                f = node.func
+                fname = f.id if isinstance(f, ast.Name) else (f.attr if isinstance(f, ast.Attribute) else None)
+                if fname in ('report_error', 'print_warning') and rel != 'pybtex/errors.py':
+                    sites.append((rel, node.lineno, getattr(node, 'end_lineno', node.lineno), 'report'))
+            if isinstance(node, ast.Raise) and isinstance(node.exc, ast.Call):
+                f = node.exc.func
+                fname = f.id if isinstance(f, ast.Name) else (f.attr if isinstance(f, ast.Attribute) else None)
+                if fname in err_classes:
+                    sites.append((rel, node.lineno, getattr(node, 'end_lineno', node.lineno), 'raise ' + fname))
+    return touches, {c: classes[c] for c in err_classes if c in classes}, sorted(set(sites))
+
+ALLOWED_TOUCH = {
+    # cmdline.py: --strict callback, main(): set_strict_mode(False), exit status
+    ('pybtex/cmdline.py', 'errors.set_strict_mode'), ('pybtex/cmdline.py', 'errors.error_code'),
+}
+
+def clear_memos():
+    import pybtex.bibtex.builtins as B
+    for f in (getattr(B, '_format_name', None), getattr(B, '_split_names', None)):
+        for cell in (getattr(f, '__closure__', None) or ()):
+            try:
+                v = cell.cell_contents
+            except ValueError:
+                continue
+            if hasattr(v, 'clear') and not callable(v):
+                v.clear()
+
+def _site_of(ex):
+    tb = ex.__traceback__
+    site = None
+    while tb is not None:
+        fn = tb.tb_frame.f_code.co_filename
+        if fn.startswith(PKG) and not fn.endswith(os.sep + 'errors.py'):
+            site = (os.path.relpath(fn, REPO), tb.tb_lineno)
+        tb = tb.tb_next
+    return site
+
+def three_modes(thunk):
+    """run one piece of user input under capture / non-strict / strict; return (message or None, sites)"""
+    from pybtex.exceptions import PybtexError
+    from pybtex.errors import format_error
+    import pybtex.errors as E
+    sites = set()
+    def run(strict, capture):
+        clear_memos()
+        E_, buf = reset_state(strict, 0)
+        lst, fatal, foreign = [], None, None
+        try:
+            if capture:
+                with E.capture() as l:
+                    lst = l
+                    thunk()
+            else:
+                thunk()
+        except PybtexError as ex:
+            fatal = ex
+            s = _site_of(ex)
+            if s:
+                sites.add(s)
+        except Exception as ex:
+            foreign = ex
+        return lst, fatal, foreign, buf.getvalue(), E.error_code, E.captured_errors
+    L, fc, xc, outc, codec, capc = run(1, True)
+    _, fn_, xn, outn, coden, _ = run(0, False)
+    _, fs, xs, outs, codes, _ = run(1, False)
+    reset_state(1, 0)
+    if capc is not None:
+        return 'captured_errors is not None after the capture block', sites
+    if xc or xn or xs:
+        return None, sites          # a foreign exception is another property's business (C10/C15/C20)
+    rend = []
+    for e in list(L) + [x for x in (fc, fn_, fs) if x is not None and not any(x is y for y in L)]:
+        if not isinstance(e, PybtexError):
+            return 'a reported problem is not a pybtex error: %r' % (e,), sites
+        try:
+            r = format_error(e, 'WARNING: ')
+            if not isinstance(r, str):
+                return 'rendering is not text', sites
+            if any(e is x for x in L) and len(rend) < len(L):
+                rend.append(r)
+        except Exception as ex:
+            return 'the reported error %s(%r) cannot be rendered: %s' % (type(e).__name__, e.args, type(ex).__name__), sites
+    want = ''.join(r + '\n' for r in rend)
+    if outn != want:
+        return 'non-strict mode printed %r but capture mode collected %r' % (outn, rend), sites
+    if (coden != 0) != bool(L):
+        return 'non-strict: %d problems but error_code %r' % (len(L), coden), sites
+    if (fc is None) != (fn_ is None) or (fc is not None and (type(fc), str(fc)) != (type(fn_), str(fn_))):
+        return 'fatal error differs between capture (%r) and non-strict (%r)' % (fc, fn_), sites
+    first = L[0] if L else fc
+    if (first is None) != (fs is None):
+        return 'strict mode raised %r but the first problem is %r' % (fs, first), sites
+    if first is not None and (type(first), format_error(first)) != (type(fs), format_error(fs)):
+        return 'strict mode raised %r but the first problem is %r' % (fs, first), sites
+    return None, sites
+
+BIB = '''@string{jx = "Jan"}
+@article{key1, author = {A. Author and Bee, B.}, title = "T" # jx, year = 2000}
+@book{key2, title = {B {n}}, crossref = {key1}}
+'''
+BST = '''ENTRY {title}{}{label}
+INTEGERS {a}
+FUNCTION {f} { "x" write$ newline$ #1 'a := }
+READ
+EXECUTE {f}
+'''
+AUX = '\\relax\n\\citation{a}\n\\bibstyle{plain}\n\\bibdata{refs}\n\\citation{b,c}\n'
+
+def corrupt(rng, s, toks):
+    r = rng.random()
+    i = rng.randrange(len(s) + 1)
+    if r < 0.3:
+        j = min(len(s), i + rng.randint(1, 4))
+        return s[:i] + s[j:]
+    if r < 0.55:
+        return s[:i] + rng.choice(toks) + s[i:]
+    if r < 0.75:
+        return s[:i] + rng.choice(toks) + s[i + 1:]
+    if r < 0.9:
+        return s[:i]
+    j = min(len(s), i + rng.randint(1, 8))
+    return s[:j] + s[i:]
+
+def real_inputs(ck, tier, rng):
+    """(label, thunk) pairs: user input of every kind the property names"""
+    import pybtex.database as D
+    from pybtex.database import Person, Entry, BibliographyData
+    from pybtex.bibtex import bst as BSTM
+    from pybtex.bibtex.names import format_name
+    from pybtex import auxfile
+    from pybtex.plugin import find_plugin
+    tmp = os.path.join(ck.rundir, 'inputs')
+    os.makedirs(tmp, exist_ok=True)
+    counter = [0]
+    def bib(t):
+        return lambda: D.parse_string(t, 'bibtex')
+    def bstrun(t, bibtext=None):
+        def f():
+            from pybtex.bibtex.interpreter import Interpreter
+            from pybtex.database.input.bibtex import Parser
+            files = []
+            if bibtext is not None:
+                counter[0] += 1
+                p = os.path.join(tmp, 'b%d.bib' % counter[0])
+                open(p, 'w', encoding='utf-8').write(bibtext)
+                files = [p]
+            Interpreter(Parser, 'utf-8').run(BSTM.parse_string(t), ['key1', 'nokey'] if bibtext is not None else [], files, min_crossrefs=2)
+        return f
+    def aux(t):
+        counter[0] += 1
+        p = os.path.join(tmp, 'a%d.aux' % counter[0])
+        open(p, 'w', encoding='utf-8').write(t)
+        return lambda: auxfile.parse_file(p, 'utf-8')
+    fixed = [
+        ('bib', '@article{k, a = }'), ('bib', '@article{k, a = "x" # }'), ('bib', '@article{k, a = undefinedmacro}'),
+        ('bib', '@article{k, a = {x}, A = {y}}'), ('bib', '@article{k, a={x}}\n@book{k, b={y}}'), ('bib', '@article{k, a = {x'),
+        ('bib', '@article{k, a = "x}"}'), ('bib', '@article{k, author = {A, B, C, D}}'), ('bib', '@article'), ('bib', '@article{'),
+        ('bib', '@article{k,\n\n  a = {x}\n  b = {y}}'), ('bib', '@a{k, crossref={zz}}'), ('bib', '@a{k, a = ' + '{' * 101 + 'x' + '}' * 101 + '}'),
+        ('bib', '@string{x = }\n@preamble{ # }\n@a(k, a = 1 # )'), ('bib', '@a{k1, x = "\x0c\n" # @}'), ('bib', '\r\n\r\n@a{k,\r\n a = \r\n}'),
+    ]
+    for kind, t in fixed:
+        yield ('%s %r' % (kind, t), bib(t))
+    n = 150 if tier == 'quick' else 1500
+    for i in range(n):
+        t = BIB
+        for _ in range(rng.randint(1, 3)):
+            t = corrupt(rng, t, ['@', '{', '}', '"', ',', '=', '#', '(', ')', '\n', ' ', 'key1', '\r\n', '\x0c'])
+        yield ('bib %r' % t, bib(t))
+    bsts = ['foo {x}', 'FUNCTION {f} { #-1 int.to.chr$ write$ } EXECUTE {f}', 'FUNCTION {f} { "ab" chr.to.int$ } EXECUTE {f}',
+            'FUNCTION {f} { "x" "" change.case$ } EXECUTE {f}', 'FUNCTION {f} { "x" "q" change.case$ } EXECUTE {f}',
+            'FUNCTION {f} { "A B" #3 "{ff}" format.name$ } EXECUTE {f}', 'FUNCTION {f} { g } EXECUTE {f}', 'FUNCTION {f} { pop$ } EXECUTE {f}',
+            'FUNCTION {f} { } FUNCTION {f} { }', 'FUNCTION {f} { "w" warning$ "w2" warning$ } EXECUTE {f}', 'FUNCTION {f} { "A B" #1 "{ff" format.name$ } EXECUTE {f}',
+            'FUNCTION {f} { "A B" #1 "{ff{x}yy}" format.name$ } EXECUTE {f}', 'FUNCTION {f', 'FUNCTION {f} { "x', 'EXECUTE', 'INTEGERS {a} FUNCTION {f} { a pop$ \'b } EXECUTE {f}',
+            'FUNCTION {f} { #1 #2 + "x" * } EXECUTE {f}', 'FUNCTION {f} { "' + '{' * 120 + '" purify$ "a" #1 "{ll}" format.name$ } EXECUTE {f}']
+    for t in bsts:
+        yield ('bst %r' % t, bstrun(t))
+    yield ('bst+bib %r' % BST, bstrun(BST, BIB))
+    yield ('bst+bib missing/dup', bstrun(BST + 'ITERATE {f}\n', BIB + '@book{key2, title={again}}\n@x{y, author={a,b,c,d}}'))
+    for i in range(n // 2):
+        t = BST
+        for _ in range(rng.randint(1, 2)):
+            t = corrupt(rng, t, ['{', '}', '"', '#', "'", ' ', '\n', 'f', 'pop$', 'EXECUTE', '%', ':='])
+        yield ('bst %r' % t, bstrun(t, BIB if i % 3 == 0 else None))
+    auxs = [AUX, '\\bibstyle{a}\n\\bibstyle{b}\n\\bibdata{x}\n', '\\bibdata{x}\n\\bibdata{y}\n\\bibstyle{s}\n', '\\citation{a}\n\\citation{A}\n\\bibstyle{s}\n\\bibdata{d}\n',
+            '\\citation{a}\n', '\\bibdata{d}\n', '', '\\bibstyle{s}\n\\citation{k,K,k}\n  \\bibstyle{t}\n\\bibstyle{u}\n\\bibdata{d}\n\\bibdata{e}\n', '\\@input{nonexistent.aux}\n']
+    for t in auxs:
+        yield ('aux %r' % t, aux(t))
+    for i in range(n // 2):
+        t = AUX + rng.choice(['', '\\citation{A}\n', '\\bibstyle{q}\n', '\\bibdata{r}\n'])
+        for _ in range(rng.randint(1, 2)):
+            t = corrupt(rng, t, ['\\', '{', '}', '\n', 'citation', 'bibstyle', 'bibdata', 'A', ','])
+        yield ('aux %r' % t, aux(t))
+    for nm in ['a, b, c, d', 'A B', ',,,,', 'x, y, z, {w, v}', '{', '~']:
+        yield ('name %r' % nm, lambda nm=nm: Person(nm))
+    for fmt in ['{ff', '{ff}}', '{ff xx}', '{f{', 'a}', '{ff~}{vv~}{ll}{, jj}', '{}', '{x}']:
+        yield ('name format %r' % fmt, lambda fmt=fmt: format_name('Donald E. Knuth', fmt))
+    yield ('plugin', lambda: find_plugin('pybtex.backends', 'no-such-backend'))
+    yield ('plugin group', lambda: find_plugin('no.such.group', 'x'))
+    yield ('plugin suffix', lambda: find_plugin('pybtex.database.input', filename='x.nosuchsuffix'))
+    yield ('plugin group suffix', lambda: find_plugin('no.such.group', filename='x.bib'))
+    def tmpl_field():
+        from pybtex.style.template import field
+        return field('title').format_data({'entry': Entry('misc')})
+    def tmpl_names():
+        from pybtex.style.template import names
+        return names('author').format_data({'entry': Entry('misc')})
+    yield ('template field', tmpl_field)
+    yield ('template names', tmpl_names)
+    def style_missing():
+        style = find_plugin('pybtex.style.formatting', 'plain')()
+        data = D.parse_string('@misc{a, title={T}}', 'bibtex')
+        return list(style.format_bibliography(data, ['a', 'nosuch', 'nosuch2']))
+    yield ('style missing entry', style_missing)
+    def style_required():
+        style = find_plugin('pybtex.style.formatting', 'plain')()
+        data = D.parse_string('@article{a, title={T}}', 'bibtex')
+        return list(style.format_bibliography(data, ['a']))
+    yield ('style missing field', style_required)
+    for t in ['{a', 'a}', 'a{b}c}', '{{a}']:
+        def mk(t=t):
+            from pybtex.markup import LaTeXParser
+            return LaTeXParser(t).parse()
+        yield ('markup %r' % t, mk)
+    yield ('open missing file', lambda: D.parse_file(os.path.join(tmp, 'does-not-exist.bib')))
+    def bad_utf8():
+        p = os.path.join(tmp, 'bad.bib')
+        open(p, 'wb').write(b'@a{k, t = {\xff\xfe}}')
+        return D.parse_file(p, encoding='utf-8')
+    yield ('undecodable file', bad_utf8)
+    def conv():
+        from pybtex.database.convert import convert
+        return convert('same.bib', 'same.bib')
+    yield ('convert same file', conv)
+    def writer():
+        d = BibliographyData({'k': Entry('misc', {'title': 'a } b'})})
+        return d.to_string('bibtex')
+    yield ('writer unmatched brace', writer)
+    def addtwice():
+        d = BibliographyData()
+        d.add_entry('k', Entry('misc'))
+        d.add_entry('K', Entry('misc'))
+        d.add_entry('k', Entry('misc'))
+    yield ('add_entry twice', addtwice)
+
+def instantiate_classes(errcls):
+    """one object of every PybtexError subclass found in the source (plus attribute variants)"""
+    import importlib
+    from pybtex.scanner import Scanner
+    from pybtex.database import Entry
+    from pybtex.auxfile import AuxDataContext
+    sc = Scanner('ab\n c d', 'f.bst'); sc.lineno = 2; sc.pos = 4
+    ctx = AuxDataContext('f.aux'); ctx.lineno = 3; ctx.line = '\\bibdata{x}'
+    import inspect
+    byname = {'message': ['some message', 'two\nlines'], 'description': ['a thing'], 'name_string': ['a, b, c, d'],
+              'group_name': ['no.group'], 'plugin_group': ['pybtex.x.suffixes'], 'name': ['nm', '.sfx'],
+              'field_name': ['title'], 'entry_key': ['k'], 'parser': [sc], 'context': [ctx],
+              'entry': [Entry('misc'), object()], 'filename': [None, 'file.x', '']}
+    out = []
+    for name, (rel, ln, bases) in sorted(errcls.items()):
+        modname = rel[:-3].replace(os.sep, '.')
+        if modname.endswith('.__init__'):
+            modname = modname[:-9]
+        try:
+            cls = getattr(importlib.import_module(modname), name)
+            params = [p for p in list(inspect.signature(cls.__init__).parameters.values())[1:]]
+        except Exception as ex:
+            out.append((name, None, 'cannot import/inspect %s.%s: %r' % (modname, name, ex)))
+            continue
+        unknown = [p.name for p in params if p.name not in byname]
+        if unknown:
+            out.append((name, None, 'no known way to instantiate %s (parameters %r)' % (name, unknown)))
+            continue
+        made = 0
+        for args in itertools.product(*[byname[p.name] for p in params]):
+            try:
+                obj = cls(*args)
+            except Exception as ex:
+                out.append((name, None, '%s%r: constructor raised %r' % (name, args, ex)))
+                continue
+            made += 1
+            out.append((name, obj, None))
+    return out
+
+def extra_checks(ck, tier, rng):
+    # 1. the line-break class the model assumes, against the running interpreter, all of Unicode
+    fails, n = [], 0
+    for cp in range(0x110000):
+        if 0xD800 <= cp <= 0xDFFF:
+            continue
+        n += 1
+        a = len(('a' + chr(cp) + 'b').splitlines()) == 2
+        if a != (cp in MODEL_LB):
+            fails.append(('U+%04X' % cp, 'splitlines breaks=%s model=%s' % (a, cp in MODEL_LB), False))
+    yield {'name': 'linebreak_class_sweep', 'evaluations': n, 'failures': fails[:5], 'info': 'str.splitlines / Model.Errors.is_lb agree on every code point'}
+
+    # 2. non-interference premise: nobody but errors.py (and the command line) touches the mode cells
+    touches, errcls, sites = ast_scan()
+    fails = []
+    for (rel, ln, what) in touches:
+        if rel == 'pybtex/errors.py' or (rel, what) in ALLOWED_TOUCH:
+            continue
+        fails.append(('%s:%d' % (rel, ln), 'module other than errors.py uses %s: a reader/engine could observe or change the reporting mode' % what, False))
+    yield {'name': 'mode_noninterference_ast_scan', 'evaluations': len(list(_py_files())), 'failures': fails[:5],
+           'info': {'uses_of_mode_cells_outside_errors_py': ['%s:%d %s' % t for t in touches if t[0] != 'pybtex/errors.py']}}
+
+    # 3. every error class of the package: instantiate, render, report in the three modes
+    from pybtex.errors import format_error
+    fails, n = [], 0
+    objs = instantiate_classes(errcls)
+    for name, obj, problem in objs:
+        n += 1
+        if problem:
+            fails.append((name, problem, False))
+            continue
+        try:
+            s = format_error(obj)
+            c = obj.get_context()
+            if not isinstance(s, str) or not (c is None or isinstance(c, str)) or str(obj.args[0]) not in s:
+                fails.append((name, 'rendering of %s%r lacks the message: %r' % (name, obj.args, s), True))
+        except Exception as ex:
+            fails.append((name, '%s%r cannot be rendered: %r' % (name, obj.args, ex), True))
+            continue
+        def thunk(obj=obj):
+            from pybtex.errors import report_error
+            report_error(obj); report_error(obj)
+        msg, _ = three_modes(thunk)
+        if msg:
+            fails.append((name, msg, True))
+    yield {'name': 'error_classes_enumerated', 'evaluations': n, 'failures': fails[:5],
+           'info': {'classes': sorted(errcls), 'objects': n}}
+
+    # 4. real inputs of every kind under capture / non-strict / strict; which sites they reach
+    fails, n, reached = [], 0, set()
+    seen = set()
+    for label, thunk in real_inputs(ck, tier, rng):
+        n += 1
+        msg, ss = three_modes(thunk)
+        reached |= ss
+        if msg:
+            sig = msg[:40]
+            if sig not in seen or 'int.to.chr$' in label:
+                seen.add(sig)
+                fails.append((label, msg, True))
+    covered = [s for s in sites if any(r == s[0] and s[1] <= l <= s[2] for (r, l) in reached)]
+    yield {'name': 'real_inputs_three_modes', 'evaluations': n, 'failures': fails[:6],
+           'info': {'sites_total': len(sites), 'sites_raised_from_in_this_run': len(covered),
+                    'sites_not_reached': ['%s:%d %s' % (s[0], s[1], s[3]) for s in sites if s not in covered]}}
+    shutil.rmtree(os.path.join(ck.rundir, 'inputs'), ignore_errors=True)
